@@ -893,7 +893,13 @@ impl TestPromptResponses {
 #[cfg(rjrssync_verif)]
 pub fn verif_resolve_args(argv: Vec<String>) -> Result<String, String> {
     let args = BossCliArgs::try_parse_from(argv).map_err(|e| format!("clap: {:?}", e.kind()))?;
-    resolve_spec(&args).map(|s| format!("{:?}", s))
+    fn hex(s: &str) -> String { s.bytes().map(|b| format!("{:02x}", b)).collect() }
+    resolve_spec(&args).map(|s| format!("Spec(x{},x{},x{},x{},{:?},dry={},[{}])",
+        hex(&s.src_hostname), hex(&s.src_username), hex(&s.dest_hostname), hex(&s.dest_username), s.deploy_behaviour, args.dry_run,
+        s.syncs.iter().map(|y| format!("Sync(x{},x{},[{}],{:?},{:?},{:?},{:?},{:?})", hex(&y.src), hex(&y.dest),
+            y.filters.iter().map(|f| format!("x{}", hex(f))).collect::<Vec<_>>().join(","),
+            y.dest_file_newer_behaviour, y.dest_file_older_behaviour, y.files_same_time_behaviour,
+            y.dest_entry_needs_deleting_behaviour, y.dest_root_needs_deleting_behaviour)).collect::<Vec<_>>().join(";")))
 }
 
 /// [verification hook] Parses a src/dest argument.
